@@ -26,7 +26,7 @@ FAULT_REPLAYS = 12
 def settle(events):
     """Append the suffix that lets everything that can still complete do so: read, drain, steal all."""
     ns = sum(1 for e in events if e.startswith("S,"))
-    nm = sum(1 for e in events if e.startswith("M,"))
+    nm = sum(1 for e in events if e.startswith("M,")) + sum(e.count(":") // 2 for e in events if e.startswith("BW,"))
     return list(events) + ["R"] + ["D"] * min(nm + ns + 3, 24) + ["T,%d" % i for i in range(min(ns, 16))]
 
 
@@ -67,6 +67,48 @@ def gen_random(rnd, count, maxlen):
             elif r < 0.97: ev.append("T,%d" % rnd.randrange(n))
             elif r < 0.99: ev.append("X" if style < 0.7 else "L")
             else: ev.append("L" if style < 0.7 else "X")
+        out.append(ev)
+    return out
+
+
+def gen_bw(rnd, count):
+    """Blocking waits during which the peer keeps writing (BW): calls without timeout (or with a long one), unrelated
+    traffic (signals, replies to other serials, duplicates) before the matching reply becomes readable."""
+    fixed = [["S,inf,1", "BW,0,s:#0:1/r:c0:2"], ["S,inf,1", "M,s,#0,1", "BW,0,r:c0:2"], ["S,inf,0", "M,r,#77,1", "BW,0,e:c0:2"],
+             ["S,inf,1", "S,inf,1", "BW,1,r:c0:1/r:c1:2", "D"], ["S,2000,1", "BW,0,s:#0:1/r:c0:2"], ["S,2000,1", "M,s,#0,1", "BW,0,s:#5:2/s:#0:3/e:c0:4"],
+             ["S,inf,1", "BW,0,s:#0:1+r:#9:2/s:c0:3"], ["S,inf,1", "M,r,c0,1", "BW,0,r:c0:2/r:c0:3", "R", "D", "D"],
+             ["S,inf,1", "S,8,1", "F,1", "BW,0,s:#0:1/r:c0:2", "D"], ["P", "S,inf,1", "P", "BW,0,s:#0:1/s:#0:2/r:c0:3"],
+             ["S,inf,1", "C,0", "BW,0,s:#0:1/r:c0:2"], ["S,inf,1", "BW,0,r:c0:1", "BW,0,r:c0:2", "R", "D"], ["S,inf,1", "X", "BW,0,r:c0:1"],
+             ["S,inf,1", "S,inf,1", "BW,0,r:c1:1/s:#0:2/r:c0:3", "BW,1,s:#0:4", "D"]]
+    out = [list(x) for x in fixed]
+    for _ in range(count):
+        n = rnd.randint(1, 3)
+        ev = ["S,%s,%d" % (rnd.choice(("inf", "inf", "2000")), rnd.randint(0, 1)) for _ in range(n)]
+        tag = 0
+        for _ in range(rnd.randint(0, 3)):
+            r = rnd.random()
+            tag += 1
+            if r < 0.35: ev.append("M,%s,%s,%d" % (rnd.choice("sre"), rnd.choice(("#0", "#99", "c%d" % rnd.randrange(n))) if True else "", tag))
+            elif r < 0.55: ev.append("R")
+            elif r < 0.75: ev.append("D")
+            elif r < 0.85: ev.append("P")
+            else: ev.append("C,%d" % rnd.randrange(n))
+        ev = [e for e in ev if not (e.startswith("M,r,#0") or e.startswith("M,e,#0"))]
+        i = rnd.randrange(n)
+        batches = []
+        for b in range(rnd.randint(0, 2)):      # unrelated traffic first
+            items = []
+            for _ in range(rnd.randint(1, 2)):
+                tag += 1
+                others = [j for j in range(n) if j != i]
+                tgt = rnd.choice(["#0", "#99"] + ["c%d" % j for j in others])
+                items.append("%s:%s:%d" % ("s" if tgt == "#0" else rnd.choice("sre"), tgt, tag))
+            batches.append("+".join(items))
+        tag += 1
+        batches.append("%s:c%d:%d" % (rnd.choice("rrre"), i, tag))
+        ev.append("BW,%d,%s" % (i, "/".join(batches)))
+        for _ in range(rnd.randint(0, 2)):
+            ev.append(rnd.choice(("D", "R", "T,%d" % i, "B,%d" % i)))
         out.append(ev)
     return out
 
@@ -170,7 +212,7 @@ def oracle(events, line):
                     bad.append(("violation", "serial %d is zero or was used before" % s))
                 serials.append(s)
                 calls.append({"serial": s, "notify": f[2] == "1", "cancelled": False, "completed": False, "ncount": 0, "stolen": False,
-                              "fired": False, "delivered": False})
+                              "fired": False, "delivered": False, "ms": f[1], "expect_peer": False})
         elif f[0] == "P":
             o = [x for x in obs if x.startswith("p")]
             if o:
@@ -191,6 +233,32 @@ def oracle(events, line):
                 for c in calls:
                     if c["serial"] == rs and not c["completed"] and not c["cancelled"]:
                         c["delivered"] = True
+        elif f[0] == "BW":
+            bi = int(f[1])
+            if peer_open and connected:
+                hit = False
+                for item in f[2].replace("/", "+").split("+"):
+                    k, tgt, tg = item.split(":")
+                    rs = None
+                    if tgt[0] == "c":
+                        if int(tgt[1:]) < len(calls):
+                            rs = calls[int(tgt[1:])]["serial"]
+                    else:
+                        rs = int(tgt[1:])
+                    if rs is None or (rs == 0 and k != "s"):
+                        continue
+                    sent[int(tg)] = (k, rs)
+                    for c in calls:
+                        if c["serial"] == rs and not c["completed"] and not c["cancelled"]:
+                            c["delivered"] = True
+                    if bi < len(calls) and rs == calls[bi]["serial"]:
+                        hit = True
+                # the waited-for reply does arrive, the connection stays open, no timeout can have expired:
+                # the wait must end with a message from the peer, never with a locally made error
+                if hit and bi < len(calls) and not disc:
+                    c = calls[bi]
+                    if not c["completed"] and not c["cancelled"] and not c["fired"] and c["ms"] in ("inf", "2000"):
+                        c["expect_peer"] = True
         elif f[0] == "X":
             peer_open = False
         elif f[0] == "F":
@@ -213,7 +281,7 @@ def oracle(events, line):
             if comp and c["notify"] and nc != 1:
                 bad.append(("violation", "call %d completed but notify count is %d (event %d)" % (i, nc, idx)))
             if comp and not c["completed"] and c["cancelled"]:
-                cls = "cancel-block" if (f[0] == "B" and int(f[1]) == i) else "violation"
+                cls = "cancel-block" if (f[0] in ("B", "BW") and int(f[1]) == i) else "violation"
                 bad.append((cls, "call %d was cancelled before it completed, yet event %d (%s) completed%s it" % (
                     i, idx, ev, " and notified" if nc else "")))
             if comp and treg:
@@ -241,6 +309,9 @@ def oracle(events, line):
                     bad.append(("violation", "call %s handed out a second reply %s" % (f[1], got)))
                 c["stolen"] = True
                 if got[0] in "NX":
+                    if c["expect_peer"]:
+                        bad.append(("violation", "call %s (serial %d, timeout %s) was blocked on while its reply arrived on an open connection, "
+                                    "yet it completed with the locally generated error %s" % (f[1], c["serial"], c["ms"], got)))
                     if int(got[1:]) != c["serial"]:
                         bad.append(("violation", "call %s (serial %d) completed with the local error for serial %s" % (f[1], c["serial"], got[1:])))
                 else:
@@ -290,6 +361,7 @@ def run(ctx):
         for c in json.load(open(p)):
             cases.append(("corpus", c["events"].split()))
     cases += [("boundary", e) for e in gen_boundary()]
+    cases += [("blockwhile", e) for e in gen_bw(rnd, 250 if tier == "quick" else 4000)]
     cases += [("exhaustive", e) for e in gen_exhaustive(4 if tier == "quick" else 5)]
     cases += [("random", e) for e in gen_random(rnd, 12000 if tier == "quick" else 300000, 22)]
     if ctx.get("replay"):
@@ -335,7 +407,7 @@ def run(ctx):
                 rep.violation("implementation crashed / sanitizer report on schedule `%s`: %s" % (" ".join(ev), crashed[line][-700:]),
                               {"events": " ".join(ev), "stderr": crashed[line][-3000:]})
             continue
-        if i != m and any(e.startswith("B,") for e in ev):
+        if i != m and any(e.startswith("B") for e in ev):
             # a blocking wait uses the wall clock; rule out a scheduling hiccup before believing the difference
             for _ in range(2):
                 i2, cr2 = vlib.run_one(exe, line)
@@ -427,5 +499,7 @@ def run(ctx):
         "timeouts are fired by the harness through dbus_timeout_handle; a blocking wait uses the real clock (8-25 ms timeouts), differences on schedules with "
         "a block are re-run twice before they count",
         "serial wrap-around is proved on the model (next_serial) and not driven through the implementation (2^32 sends)",
+        "BW schedules (block while the peer keeps writing) use a helper thread in the harness that writes pre-marshalled bytes every 15 ms and makes no "
+        "libdbus call; only calls without timeout or with a 2 s timeout are waited for this way",
         "schedules that would block for ever (block on a call without timeout and without a reply) are not run",
     ]
